@@ -106,6 +106,12 @@ def tonsq_cases(ctx, asis, fixed):
         nlong = 60
     for i in rng.sample([i for i in inputs if 2 <= len(i) <= 5], 6):   # the throttled loop (--rate)
         add(i, CONCS[0], 1, rate=200)
+    # ToNsq.tla PublishErr: a destination that accepts k PUBs and refuses the next; what it accepted must be the
+    # first k records
+    multi = [i for i in inputs if len(asis[i][0]) >= 2]
+    for i in rng.sample(multi, 30 if ctx.quick else 200):
+        add(i, CONCS[rng.randrange(len(CONCS))], 1)
+        cases[-1]["fail_after"] = rng.randrange(0, len(asis[i][0]) + 1)
     return cases, nlong
 
 
@@ -127,6 +133,9 @@ def judge_tonsq(ctx, R):
     ctx.notes["to_nsq_records_compared"] = R["records_compared"]
     ctx.notes["to_nsq_reader_shape_agreement"] = R["shape"]
     ctx.notes["to_nsq_mismatch_by_class"] = R["mismatch_by_class"]
+    ctx.notes["to_nsq_runs_with_failing_destination"] = R.get("runs_with_failing_destination", 0)
+    for n in (R.get("shape_notes") or [])[:5]:
+        ctx.drift("to_nsq: " + n)
     for s in (R.get("samples") or [])[:3]:
         ctx.sample({"to_nsq_run": s})
     if R.get("inconclusive"):
@@ -199,17 +208,19 @@ def run_relay(ctx, scenarios, tag="relay"):
     rep = os.path.join(ctx.scratch, tag + "-report.json")
     tr = os.path.join(ctx.scratch, tag + "-trace.ndjson")
     ftr = os.path.join(ctx.scratch, tag + "-ftrace.ndjson")
+    strc = os.path.join(ctx.scratch, tag + "-strace.ndjson")
     with open(job, "w") as f:
         json.dump({"bins": {"nsq_to_nsq": ctx.repo_bin("nsq_to_nsq"), "nsq_to_http": ctx.repo_bin("nsq_to_http")},
                    "seed": ctx.seed, "workers": NWORK, "deadline_s": 120, "scenarios": scenarios}, f)
-    rc, out, err = ctx.run_harness(["relay", "--job", job, "--report", rep, "--trace", tr, "--ftrace", ftr],
+    rc, out, err = ctx.run_harness(["relay", "--job", job, "--report", rep, "--trace", tr, "--ftrace", ftr, "--strace", strc],
                                    timeout=3000, name="relay")
     if rc != 0 or not os.path.exists(rep):
         raise Inconclusive("relay relay: rc=%s %s %s" % (rc, out[-1500:], err[-1500:]))
-    return json.load(open(rep)), tr, ftr
+    return json.load(open(rep)), tr, (ftr, strc)
 
 
-def judge_relay(ctx, R, tr, ftr):
+def judge_relay(ctx, R, tr, ftr_strc):
+    ftr, strc = ftr_strc
     ctx.cov["evaluations"] += R["scenarios"]
     ctx.cov["distinct_nontrivial"] += R["distinct_nontrivial"]
     ctx.notes["relay_scenarios"] = R["scenarios"]
@@ -242,6 +253,10 @@ def judge_relay(ctx, R, tr, ftr):
         ctx.validate_trace("RelayTrace", "RelayTrace.cfg", tr, R["traces"], "relay", timeout=1800)
     if R["filter_traces"]:
         ctx.validate_trace("RelayTrace", "RelayTrace_filter.cfg", ftr, R["filter_traces"], "relay-filter", timeout=1800)
+    # ... and against the implementation-shaped spec (a rejection there alone is model drift)
+    if R.get("shape_traces"):
+        ctx.validate_trace("RelayShapeTrace", "RelayShapeTrace.cfg", strc, R["shape_traces"], "relay-shape", timeout=1800,
+                           level="shape")
     if inconc and not ctx.violations:
         raise Inconclusive("%d relay scenario(s) did not settle: %s" % (len(inconc), " || ".join(inconc[:3])))
     if inconc:
@@ -267,6 +282,7 @@ def tlc_models(ctx):
         "TLC: with go-nsq max_attempts > 0 the model violates %s (consumer gives up: FIN without accept); the relays are "
         "therefore run with --consumer-opt max_attempts,0" % g.violated) if not g.ok else "no violation with max_attempts > 0"
     if not q:
+        ctx.model_check("Relay", "Relay_connlost.cfg", timeout=3000, workers=8, label="thorough, ConnLost")
         base = open(os.path.join(ctx.specdir, "Relay_thorough.cfg")).read()
         for kind in ("async", "sync"):
             for mode in ("rr", "hostpool", "eps"):
@@ -330,6 +346,9 @@ def run(ctx):
         "after 5 s without any event while nothing is queued, in flight or outstanding",
         "bufio.Reader.ReadBytes is one atomic step in ToNsq.tla; buffer refills are exercised by generated inputs only",
         "bodies are pairwise different per scenario, so a body identifies its source message",
+        "RelayShapeTrace: destination choice left open (Mode = any); HandleMessage reaching the publish call, source "
+        "msg-timeouts (bounded by the source's own timeout counter) and requests dying with their connection are silent "
+        "steps; answers are placed where the fake destination took the schedule item",
     ]
 
 
